@@ -18,18 +18,21 @@ TB = ("Coq 8.16.1 kernel and vm_compute; hand-written Gallina model of the lexer
       "correspondence check (Go harness built -tags verif from the working tree, nil-safe tree dumper; model evaluated inside "
       "Coq on the same inputs); Python AST generator / layout renderer / comparison code in tools/props/front*.py; ")
 CLAIM = dict(
-    text=("Theorems in coq/props/C03.v about the executable model of pkg/syntax + pkg/syntax/zh (lexer, token buffer with "
-          "stmtCompleteFlag, all Parse* productions): every tree the model parser returns is complete (C03_complete, all "
-          "inputs); a run that stays inside the supplied fuel is independent of the fuel (C03_fuel_monotone); layout "
-          "invariance and round trip are proved for the token-level layout rules named in the file and otherwise carried by "
-          "the correspondence check: on every run random ASTs over all 14 statement kinds and all expression forms are "
-          "rendered under several random layouts (synonyms, spaces, optional comma, comments, TAB/4-space, LF/CR/CRLF, "
-          "breaks after ， 、 { 【 ： ？) and the real parser must return exactly the prescribed tree for each; token/line "
-          "corruptions and truncations must be rejected or yield a complete tree; the model's tree or (code, cursor) must "
-          "equal the implementation's on all these inputs."),
-    note=TB + ("clauses proved: completeness of accepted trees, fuel independence, lexer line-end/indent-kind invariance lemmas; "
-               "clauses covered by correspondence only: the full round trip compile(render L p) = p over all layouts."),
-    technique="Coq proof (induction over productions / fuel) + model/implementation correspondence by vm_compute + differential generation",
+    text=("Theorem C03_complete (coq/props/C03.v, closed under the global context): every tree the executable model of the "
+          "front end (pkg/syntax lexer driver + pkg/syntax/zh parser: token buffer with stmtCompleteFlag, tryConsume, "
+          "meetStmtLineBreak, blockIndent, all Parse* productions, with the repairs fixes/C03-1..4, C05-1, C05-3, C13-1) returns is "
+          "complete - every construct has all parts the grammar requires - for ALL sources and fuel values, by induction over "
+          "the productions (C03_complete_productions). The remaining clauses are carried by the correspondence run, not by "
+          "proof: on every run random ASTs over all 14 statement kinds and all expression forms are rendered under several "
+          "random layouts (synonym spellings, Chinese/ASCII punctuation, spaces, one optional comma, comments incl. "
+          "multi-line, TAB/4-space, LF/CR/CRLF/LFCR, line breaks after ， 、 { 【 ： ？ and before 】 }) and the real parser must "
+          "return exactly the prescribed tree for every layout (tree of the grammar + layout invariance); token/line "
+          "corruptions and truncations must be rejected or yield a complete tree, never hang or panic; and the model's "
+          "outcome (tree + line table, or error code + cursor) must equal the implementation's on these inputs."),
+    note=TB + ("proved: completeness of every returned tree (all inputs). NOT proved, covered by the correspondence run only: "
+               "the round trip compile(render L p) = p, lexer/comma/bracket-line-break/synonym invariance as theorems. "
+               "The token recognisers are the C04 model (vendored as model/LexerTok.v), string literals the C13 model."),
+    technique="Coq proof (induction over fuel and productions) + model/implementation correspondence by vm_compute + differential generation",
     design="5/C03")
 
 
@@ -320,7 +323,7 @@ def run(chk, replay=None):
         chk.violation(what + ": " + repr(rep.get("text", ""))[:200], sig, rep)
 
     # ---- Stage 2: the Gallina model on the same inputs
-    lim = 220 if quick else 2500
+    lim = 450 if quick else 2500
     pool = [m for m in model_inputs[len(corpus):] if len(m[0]) <= 360]
     sel = model_inputs[:len(corpus)] + rng.sample(pool, min(lim, len(pool)))
     mm = fm.compare(chk, [t for t, _ in sel], [o for _, o in sel], "C03")
